@@ -1656,7 +1656,13 @@ class Array:
         new_axes = [new_axes[p] for p in perm_args]
 
         # labels: replace non-set labels with '?#' (*before* transpose
-        labels = [(l if l is not None else '?' + str(i)) for i, l in enumerate(self._labels)]
+        labels = list(self._labels)
+        for i, l in enumerate(labels):
+            if l is None:
+                l = '?' + str(i)
+                while l in labels:  # a placeholder of an earlier `combine_legs` can carry the same name
+                    l = '?' + l
+                labels[i] = l
         # transpose if necessary
         if transp != tuple(range(self.rank)):
             res = self.copy(deep=False)
